@@ -25,6 +25,27 @@ type Chain struct {
 	SlotsPerEpoch         uint64
 	ForkVersion           eth2p0.Version
 	GenesisValidatorsRoot eth2p0.Root
+	// Forks is an optional fork schedule (ascending epochs) on top of ForkVersion, which is the
+	// genesis fork version (epoch 0). nil = one fork for all epochs (the behaviour C01 relies on).
+	Forks []Fork
+}
+
+// Fork is one entry of the fork schedule: Version applies from Epoch on.
+type Fork struct {
+	Epoch   eth2p0.Epoch
+	Version eth2p0.Version
+}
+
+// VersionAt is the fork version in force at an epoch (the spec's get_domain rule: the version of the
+// latest fork whose activation epoch is <= epoch).
+func (c *Chain) VersionAt(epoch eth2p0.Epoch) eth2p0.Version {
+	v := c.ForkVersion
+	for _, f := range c.Forks {
+		if f.Epoch <= epoch {
+			v = f.Version
+		}
+	}
+	return v
 }
 
 // DomainTypes are the spec's signature domain types.
@@ -72,6 +93,9 @@ type Client struct {
 
 	// AttData returns this node's view of the attestation data for (slot, committee).
 	AttData func(ctx context.Context, slot eth2p0.Slot, comm eth2p0.CommitteeIndex) (*eth2p0.AttestationData, error)
+
+	// Vals returns the active validators (used by the validator API's index -> pubkey lookups).
+	Vals func() eth2wrap.ActiveValidators
 
 	mu    sync.Mutex
 	Calls map[string]int
@@ -121,8 +145,17 @@ func (c *Client) Genesis(context.Context, *eth2api.GenesisOpts) (*eth2api.Respon
 	}, Metadata: map[string]any{}}, nil
 }
 
-func (c *Client) Domain(_ context.Context, dt eth2p0.DomainType, _ eth2p0.Epoch) (eth2p0.Domain, error) {
-	return ComputeDomain(dt, c.Chain.ForkVersion, c.Chain.GenesisValidatorsRoot), nil
+func (c *Client) Domain(_ context.Context, dt eth2p0.DomainType, epoch eth2p0.Epoch) (eth2p0.Domain, error) {
+	return ComputeDomain(dt, c.Chain.VersionAt(epoch), c.Chain.GenesisValidatorsRoot), nil
+}
+
+// ActiveValidators serves the validator cache (index -> group public key) from Vals; nil Vals = none.
+func (c *Client) ActiveValidators(context.Context) (eth2wrap.ActiveValidators, error) {
+	c.count("active_validators")
+	if c.Vals == nil {
+		return eth2wrap.ActiveValidators{}, nil
+	}
+	return c.Vals(), nil
 }
 
 func (c *Client) GenesisDomain(_ context.Context, dt eth2p0.DomainType) (eth2p0.Domain, error) {
